@@ -157,6 +157,31 @@ def self_attr(node):
     return None
 
 
+def _is_self(n):
+    return isinstance(n, ast.Name) and n.id == 'self'
+
+
+def _is_self_dict(n):
+    return (isinstance(n, ast.Attribute) and n.attr == '__dict__' and _is_self(n.value)) or \
+        (isinstance(n, ast.Call) and getattr(n.func, 'id', None) == 'vars' and n.args and _is_self(n.args[0]))
+
+
+def dynamic_self_attr(node):
+    """name reached on `self` through getattr/hasattr/__dict__ with a constant name, else None"""
+    if isinstance(node, ast.Call):
+        f = node.func
+        if isinstance(f, ast.Name) and f.id in ('getattr', 'hasattr') and len(node.args) >= 2 and _is_self(node.args[0]):
+            return const_key(node.args[1])
+        if isinstance(f, ast.Attribute) and f.attr in ('get', '__contains__', 'pop', 'setdefault') and _is_self_dict(f.value) and node.args:
+            return const_key(node.args[0])
+    if isinstance(node, ast.Subscript) and _is_self_dict(node.value):
+        return const_key(node.slice)
+    if isinstance(node, ast.Compare) and len(node.ops) == 1 and isinstance(node.ops[0], (ast.In, ast.NotIn)) \
+            and _is_self_dict(node.comparators[0]):
+        return const_key(node.left)
+    return None
+
+
 def const_key(sl):
     if isinstance(sl, ast.Constant) and isinstance(sl.value, str):
         return sl.value
@@ -274,6 +299,15 @@ class GetterWalk:
                 for x in node.args[1:]:
                     self.read_expr(x, guard)
                 return
+        dyn = dynamic_self_attr(node)
+        if dyn is not None:
+            # getattr(self, 'x', d) / hasattr(self, 'x') / self.__dict__.get('x') / 'x' in self.__dict__ / self.__dict__['x']
+            fake = ast.Attribute(value=ast.Name(id='self', ctx=ast.Load()), attr=dyn, ctx=ast.Load())
+            self.read_expr(fake, guard)
+            if isinstance(node, ast.Call):
+                for x in node.args[2:]:
+                    self.read_expr(x, guard)
+            return
         if isinstance(node, ast.Call):
             self.call_effects(node, guard)
         a = self_attr(node)
@@ -325,6 +359,13 @@ class GetterWalk:
 
     def call_effects(self, call, guard):
         fname = call.func.attr if isinstance(call.func, ast.Attribute) else getattr(call.func, 'id', None)
+        if fname == 'setattr' and isinstance(call.func, ast.Name) and len(call.args) == 3 and _is_self(call.args[0]) \
+                and const_key(call.args[1]) is not None:
+            self.store(ast.Attribute(value=ast.Name(id='self', ctx=ast.Load()), attr=const_key(call.args[1]), ctx=ast.Store()),
+                       call.args[2], guard, False)
+        if fname in ('update', 'setdefault', 'pop', 'clear') and isinstance(call.func, ast.Attribute) and _is_self_dict(call.func.value):
+            self.notes.append('instance dict modified through %s() at line %d' % (fname, call.lineno))
+            self.add(self.writes, '*__dict__', guard)
         # method of self: self.m(...)
         if isinstance(call.func, ast.Attribute) and self_attr(call.func) is not None and fname in self.methods \
                 and fname != '__init__':
@@ -356,6 +397,9 @@ class GetterWalk:
             self.stmt(st, guard, top)
 
     def store(self, target, value, guard, top, aug=False):
+        # self.__dict__['x'] = …  is  self.x = …
+        if isinstance(target, ast.Subscript) and _is_self_dict(target.value) and const_key(target.slice) is not None:
+            target = ast.Attribute(value=ast.Name(id='self', ctx=ast.Load()), attr=const_key(target.slice), ctx=ast.Store())
         # self.X = …
         a = self_attr(target)
         if a is not None:
